@@ -1,4 +1,5 @@
 import AranyaV.Props.C12
+import AranyaV.Spec.Braid
 /-!
 # C03 (part c) — the stored fact state does not depend on the storage layout
 
@@ -374,3 +375,354 @@ example : (match writeSegs 2 layoutA with
 end Examples
 
 end AranyaV.Facts
+
+/-!
+## From the storage layouts to the reference model (`Spec.Braid`)
+
+The audit policy's fact state `Spec.Facts` (the `"f"` facts as an association list and the `"log"`
+fact) is encoded as a flat map (`enc`); the writes a command's rule makes on a state are its
+update list (`cmdUpd`, the per-command update log of `LinearPerspective`).  Replaying those
+updates is running the rule (`replay_cmdUpd`), so:
+
+* `layout_facts_eq_spec`       — for EVERY packing of a linear history (evaluated from the empty
+                                 state) into segments / fact-index layers and every depth limit `≥ 2`
+                                 (compaction included), the view `get_fact_perspective` returns at the
+                                 `k`-th command means the reference state after the first `k+1` commands;
+* `merge_layout_facts_eq_spec` — the same for a history continued on a merge segment whose prior index
+                                 means the reference state `s0` (the braid result);
+* `braid_index_eq_factsOf`     — `evaluate_braid` on the storage model: starting from a view that means
+                                 the stored state of the braid's start, applying the update logs of the
+                                 commands of the braid order and `write_facts` yields an index that means
+                                 `Spec.factsOf g heads` (any perspective shape, compaction included).
+Induction over how a store is built (init segment / linear segment on a correct view / merge segment on
+a correct braid index) therefore gives: every fact view of every layout means `stateAt`; the three
+theorems are the three induction steps.  (A combined store-with-facts model carrying that induction
+as one statement is not built.)
+-/
+namespace AranyaV.FactsBridge
+open AranyaV.Facts
+
+/-- key of the fact `("f", [k])` -/
+def fKey (k : Nat) : Key := [[102], [k]]
+/-- key of the fact `("log", [])` -/
+def logKey : Key := [[108, 111, 103]]
+
+def decF : Key → Option Nat
+  | [[102], [k]] => some k
+  | _ => none
+
+/-- the log value: length-prefixed tags -/
+def encLog (l : List String) : Val := l.flatMap (fun t => t.length :: t.toList.map Char.toNat)
+
+/-- `Spec.Facts` as a flat map -/
+def enc (s : Spec.Facts) : Flat := fun key =>
+  if key = logKey then s.log.map encLog
+  else match decF key with
+    | some k => (s.f.lookup k).map (fun v => [v])
+    | none => none
+
+theorem decF_fKey (k : Nat) : decF (fKey k) = some k := rfl
+
+theorem decF_some {key : Key} {k : Nat} (h : decF key = some k) : key = fKey k := by
+  unfold decF at h
+  split at h
+  · simp only [Option.some.injEq] at h; subst h; rfl
+  · cases h
+
+theorem fKey_ne_logKey (k : Nat) : fKey k ≠ logKey := by simp [fKey, logKey]
+
+theorem lookup_cons_if (k' a b : Nat) (l : List (Nat × Nat)) :
+    List.lookup k' ((a, b) :: l) = if k' = a then some b else l.lookup k' := by
+  rw [List.lookup_cons]
+  by_cases h : k' = a
+  · simp [h]
+  · have : (k' == a) = false := by simpa using h
+    simp [h, this]
+
+theorem lookup_insertSorted (k v k' : Nat) (l : List (Nat × Nat)) :
+    (Spec.insertSorted k v l).lookup k' = if k' = k then some v else l.lookup k' := by
+  induction l with
+  | nil => simp only [Spec.insertSorted, lookup_cons_if]
+  | cons x xs ih =>
+    obtain ⟨a, b⟩ := x
+    simp only [Spec.insertSorted]
+    by_cases h1 : k < a
+    · simp only [h1, if_true, lookup_cons_if]
+    · simp only [h1, if_false]
+      by_cases h2 : k = a
+      · subst h2
+        simp only [if_true, lookup_cons_if]
+        by_cases h : k' = k <;> simp [h]
+      · simp only [h2, if_false, lookup_cons_if, ih]
+        by_cases h : k' = k
+        · subst h; simp [h2]
+        · simp [h]
+
+theorem lookup_filter_ne (k k' : Nat) (l : List (Nat × Nat)) :
+    (l.filter (fun e => e.1 != k)).lookup k' = if k' = k then none else l.lookup k' := by
+  induction l with
+  | nil => by_cases h : k' = k <;> simp [h]
+  | cons x xs ih =>
+    obtain ⟨a, b⟩ := x
+    by_cases ha : a = k
+    · subst ha
+      have : ((a, b).1 != a) = false := by simp
+      rw [List.filter_cons, this]
+      simp only [Bool.false_eq_true, if_false, ih, lookup_cons_if]
+      by_cases h : k' = a <;> simp [h]
+    · have : ((a, b).1 != k) = true := by simpa using ha
+      rw [List.filter_cons, this]
+      simp only [if_true, lookup_cons_if, ih]
+      by_cases h : k' = k
+      · subst h
+        have : k' ≠ a := fun e => ha e.symm
+        simp [this]
+      · simp [h]
+
+/-- reading the encoded state: the query for `("f",[k])` is `get k`, the query for `("log",[])` is the log -/
+theorem enc_get (s : Spec.Facts) (k : Nat) : enc s (fKey k) = (s.get k).map (fun v => [v]) := by
+  unfold enc
+  simp [fKey_ne_logKey, decF_fKey, Spec.Facts.get]
+
+theorem enc_logKey (s : Spec.Facts) : enc s logKey = s.log.map encLog := by
+  unfold enc; simp
+
+theorem enc_set (s : Spec.Facts) (k v : Nat) :
+    update (enc s) (fKey k) (some [v]) = enc { s with f := Spec.insertSorted k v s.f } := by
+  funext key
+  unfold update enc
+  by_cases h1 : key = fKey k
+  · subst h1
+    simp [fKey_ne_logKey, decF_fKey, lookup_insertSorted]
+  · simp only [h1, if_false]
+    by_cases h2 : key = logKey
+    · simp [h2]
+    · simp only [h2, if_false]
+      cases hd : decF key with
+      | none => rfl
+      | some k' =>
+        have : k' ≠ k := by intro e; subst e; exact h1 (decF_some hd)
+        simp [lookup_insertSorted, this]
+
+theorem enc_del (s : Spec.Facts) (k : Nat) :
+    update (enc s) (fKey k) none = enc { s with f := s.f.filter (fun e => e.1 != k) } := by
+  funext key
+  unfold update enc
+  by_cases h1 : key = fKey k
+  · subst h1
+    simp [fKey_ne_logKey, decF_fKey, lookup_filter_ne]
+  · simp only [h1, if_false]
+    by_cases h2 : key = logKey
+    · simp [h2]
+    · simp only [h2, if_false]
+      cases hd : decF key with
+      | none => rfl
+      | some k' =>
+        have : k' ≠ k := by intro e; subst e; exact h1 (decF_some hd)
+        simp [lookup_filter_ne, this]
+
+theorem enc_log (s : Spec.Facts) (l : List String) :
+    update (enc s) logKey (some (encLog l)) = enc { s with log := some l } := by
+  funext key
+  unfold update enc
+  by_cases h2 : key = logKey
+  · simp [h2]
+  · simp [h2]
+
+/-- the writes of a rule body on a state: one update per `set` / `del` / `append`, up to the first
+failing check (what `LinearPerspective` logs for the command) -/
+def opsUpdates : List Spec.Op → Spec.RuleSt → List Update
+  | [], _ => []
+  | op :: rest, st =>
+    match op with
+    | .set k v => (fKey k, some [v]) ::
+        opsUpdates rest { st with facts := { st.facts with f := Spec.insertSorted k v st.facts.f } }
+    | .del k => (fKey k, none) ::
+        opsUpdates rest { st with facts := { st.facts with f := st.facts.f.filter (·.1 != k) } }
+    | .append =>
+      let l := match st.facts.log with
+        | none => [st.tag]
+        | some l => l ++ [st.tag]
+      (logKey, some (encLog l)) :: opsUpdates rest { st with facts := { st.facts with log := some l } }
+    | .reqAbsent k => if (st.facts.get k).isSome then [] else opsUpdates rest st
+    | .reqPresent k => if (st.facts.get k).isNone then [] else opsUpdates rest st
+    | .fail => []
+    | .emit n => opsUpdates rest { st with effects := st.effects ++ [n] }
+    | .tag t => opsUpdates rest { st with tag := t }
+
+theorem replay_cons (S : Flat) (u : Update) (us : List Update) :
+    replay S (u :: us) = replay (update S u.1 u.2) us := rfl
+
+theorem replay_opsUpdates : ∀ (ops : List Spec.Op) (st : Spec.RuleSt),
+    replay (enc st.facts) (opsUpdates ops st) = enc (Spec.runOps ops st).1.facts := by
+  intro ops
+  induction ops with
+  | nil => intro st; rfl
+  | cons op rest ih =>
+    intro st
+    cases op with
+    | set k v =>
+      simp only [opsUpdates, Spec.runOps]
+      rw [replay_cons, enc_set]; exact ih ⟨_, _, _⟩
+    | del k =>
+      simp only [opsUpdates, Spec.runOps]
+      rw [replay_cons, enc_del]; exact ih ⟨_, _, _⟩
+    | append =>
+      simp only [opsUpdates, Spec.runOps]
+      rw [replay_cons, enc_log]; exact ih ⟨_, _, _⟩
+    | reqAbsent k =>
+      simp only [opsUpdates, Spec.runOps]
+      split
+      · rfl
+      · exact ih _
+    | reqPresent k =>
+      simp only [opsUpdates, Spec.runOps]
+      split
+      · rfl
+      · exact ih _
+    | fail => rfl
+    | emit n => simp only [opsUpdates, Spec.runOps]; exact ih { st with effects := st.effects ++ [n] }
+    | tag t => simp only [opsUpdates, Spec.runOps]; exact ih { st with tag := t }
+
+/-- the update log of a command evaluated on the state `s` -/
+def cmdUpd (c : Spec.Cmd) (s : Spec.Facts) : List Update := opsUpdates c.body { facts := s, tag := c.tag }
+
+/-- **replaying a command's update log is running its rule** -/
+theorem replay_cmdUpd (c : Spec.Cmd) (s : Spec.Facts) :
+    replay (enc s) (cmdUpd c s) = enc (Spec.rule c s).1 :=
+  replay_opsUpdates c.body { facts := s, tag := c.tag }
+
+/-- the reference state after evaluating a command sequence -/
+def runCmds (s : Spec.Facts) (cs : List Spec.Cmd) : Spec.Facts := cs.foldl (fun s c => (Spec.rule c s).1) s
+
+/-- the storage-level history of a command sequence evaluated from `s`: ids and update logs -/
+def toHist : Spec.Facts → List Spec.Cmd → List Cmd
+  | _, [] => []
+  | s, c :: cs => ⟨c.id, cmdUpd c s⟩ :: toHist (Spec.rule c s).1 cs
+
+theorem toHist_length (s : Spec.Facts) (cs : List Spec.Cmd) : (toHist s cs).length = cs.length := by
+  induction cs generalizing s with
+  | nil => rfl
+  | cons c cs ih => simp [toHist, ih]
+
+theorem toHist_take (s : Spec.Facts) (cs : List Spec.Cmd) (k : Nat) :
+    (toHist s cs).take k = toHist s (cs.take k) := by
+  induction cs generalizing s k with
+  | nil => simp [toHist]
+  | cons c cs ih =>
+    cases k with
+    | zero => simp [toHist]
+    | succ k => simp [toHist, ih]
+
+theorem replay_toHist (s : Spec.Facts) (cs : List Spec.Cmd) :
+    replay (enc s) (cmdUpdates (toHist s cs)) = enc (runCmds s cs) := by
+  induction cs generalizing s with
+  | nil => rfl
+  | cons c cs ih =>
+    simp only [toHist, cmdUpdates, List.flatMap_cons, runCmds, List.foldl_cons]
+    rw [replay_append, replay_cmdUpd]
+    exact ih _
+
+theorem enc_empty : enc {} = fun _ => none := by
+  funext key
+  unfold enc
+  by_cases h : key = logKey
+  · simp [h]
+  · simp only [h, if_false]
+    cases decF key <;> rfl
+
+/-- **`layout_facts_eq_spec`.** Any layout of a linear history evaluated from the empty state: every
+view means the reference state. -/
+theorem layout_facts_eq_spec {D : Nat} (hD : 2 ≤ D) (cs : List Spec.Cmd) (gs : List (List Cmd))
+    (hgs : ∀ g ∈ gs, g ≠ []) (hflat : gs.flatten = toHist {} cs) :
+    ∃ segs, writeSegs D gs = .ok segs ∧
+      ∀ k, k < cs.length → ∃ f, viewAt segs k = .ok f ∧ f.WF ∧ f.abs = enc (runCmds {} (cs.take (k + 1))) := by
+  obtain ⟨segs, hw, hv⟩ := layout_views hD gs hgs
+  refine ⟨segs, hw, fun k hk => ?_⟩
+  obtain ⟨f, h1, h2, h3⟩ := hv k (by rw [hflat, toHist_length]; exact hk)
+  refine ⟨f, h1, h2, ?_⟩
+  rw [h3, hflat, toHist_take, ← enc_empty, replay_toHist]
+
+/-- **`merge_layout_facts_eq_spec`.** The same on top of a merge segment whose prior index means `s0`. -/
+theorem merge_layout_facts_eq_spec {D : Nat} (hD : 2 ≤ D) (F : Chain) (hF : F.WF) (hFd : DepthOK D F)
+    (s0 : Spec.Facts) (hF0 : F.abs = enc s0) (cs : List Spec.Cmd) (gs : List (List Cmd))
+    (hgs : ∀ g ∈ gs, g ≠ []) (hflat : gs.flatten = toHist s0 cs) :
+    ∃ segs, writeSegsFrom D (mergePerspective F) false gs = .ok segs ∧
+      ∀ k, k < cs.length → ∃ f, viewAt segs k = .ok f ∧ f.WF ∧ f.abs = enc (runCmds s0 (cs.take (k + 1))) := by
+  obtain ⟨segs, hw, hv⟩ := merge_segment_views hD F hF hFd gs hgs
+  refine ⟨segs, hw, fun k hk => ?_⟩
+  obtain ⟨f, h1, h2, h3⟩ := hv k (by rw [hflat, toHist_length]; exact hk)
+  refine ⟨f, h1, h2, ?_⟩
+  rw [h3, hflat, toHist_take, hF0, replay_toHist]
+
+theorem applyOrder_eq_runCmds (g : Spec.Graph) (order : List Nat) (s : Spec.Facts) :
+    Spec.applyOrder g order s = runCmds s (order.filterMap g.find?) := by
+  unfold Spec.applyOrder runCmds
+  induction order generalizing s with
+  | nil => rfl
+  | cons i rest ih =>
+    simp only [List.foldl_cons, List.filterMap_cons]
+    cases hf : g.find? i with
+    | none => simp only; exact ih s
+    | some c => simp only [List.foldl_cons]; exact ih _
+
+theorem depthOK_applyUpdate {D : Nat} {f : FP} (hd : f.DepthOK D) (u : Update) :
+    (f.applyUpdate u).DepthOK D := by
+  rw [FP.applyUpdate_eq]
+  cases u.2 with
+  | some v => show (f.insert u.1 v).DepthOK D; cases f <;> exact hd
+  | none => show (f.delete u.1).DepthOK D; unfold FP.delete; split <;> (cases f <;> exact hd)
+
+theorem depthOK_applyUpdates {D : Nat} {f : FP} (hd : f.DepthOK D) (us : List Update) :
+    (f.applyUpdates us).DepthOK D := by
+  unfold FP.applyUpdates
+  induction us generalizing f with
+  | nil => exact hd
+  | cons u r ih => exact ih (depthOK_applyUpdate hd u)
+
+/-- **`braid_index_eq_factsOf`.** `evaluate_braid` on the storage model: from a view `f0` that means
+the stored state of the braid's start, apply the update logs of the commands of the braid order
+(`apply_updates`: the rule's writes) and `write_facts`; the written index means `factsOf g heads`. -/
+theorem braid_index_eq_factsOf {D : Nat} (hD : 2 ≤ D) (g : Spec.Graph) (heads : List Nat)
+    (hmulti : ∀ h, heads ≠ [h]) {start : Nat} {order : List Nat} {s : Spec.Facts}
+    (hb : Spec.refBraid g heads = .ok (start, order)) (hs : Spec.stateAt g start = .ok s)
+    (f0 : FP) (hf0 : f0.WF) (hd0 : f0.DepthOK D) (habs : f0.abs = enc s) :
+    ∃ c pf Fs, writeFP D (f0.applyUpdates (cmdUpdates (toHist s (order.filterMap g.find?)))) = .ok (c, pf) ∧
+      Spec.factsOf g heads = .ok Fs ∧ c.abs = enc Fs ∧ c.WF ∧ DepthOK D c := by
+  have hwf := (applyUpdates_refines f0 hf0 (cmdUpdates (toHist s (order.filterMap g.find?)))).2
+  have hdep : (f0.applyUpdates (cmdUpdates (toHist s (order.filterMap g.find?)))).DepthOK D :=
+    depthOK_applyUpdates hd0 _
+  obtain ⟨c, pf, hw, hdc, _, _⟩ := depth_bound hD hwf hdep
+  obtain ⟨hca, hcw, _⟩ := writeFacts_refines hwf hw
+  refine ⟨c, pf, Spec.applyOrder g order s, hw, ?_, ?_, hcw, hdc⟩
+  · unfold Spec.factsOf
+    split
+    · rename_i h; exact absurd rfl (hmulti h)
+    · rw [hb]; simp only [hs]
+  · rw [hca, (applyUpdates_refines f0 hf0 _).1, habs, replay_toHist, applyOrder_eq_runCmds]
+
+/-! ### non-vacuity: a three-command history in two layouts, read back as `Spec` facts -/
+
+private def sc (i : Nat) (ps : List Nat) (b : List Spec.Op) : Spec.Cmd :=
+  { id := i, parents := ps, prio := .basic 0, body := b, tag := "t" }
+
+private def hist3 : List Spec.Cmd :=
+  [sc 1 [] [.set 0 0, .append], sc 2 [1] [.set 1 5, .del 0], sc 3 [2] [.reqPresent 1, .set 1 6, .append, .fail]]
+
+example : (toHist {} hist3).map (·.updates.length) = [2, 2, 2] := by decide
+
+example : ∃ segsA segsB, writeSegs 2 [(toHist {} hist3).take 1, (toHist {} hist3).drop 1] = .ok segsA ∧
+    writeSegs 2 [(toHist {} hist3).take 2, (toHist {} hist3).drop 2] = .ok segsB ∧
+    ∀ k, k < 3 → ∃ fa fb, viewAt segsA k = .ok fa ∧ viewAt segsB k = .ok fb ∧
+      fa.abs = enc (runCmds {} (hist3.take (k + 1))) ∧ fb.abs = enc (runCmds {} (hist3.take (k + 1))) := by
+  obtain ⟨sa, ha, va⟩ := layout_facts_eq_spec (D := 2) (by decide) hist3
+    [(toHist {} hist3).take 1, (toHist {} hist3).drop 1] (by decide) (by decide)
+  obtain ⟨sb, hb, vb⟩ := layout_facts_eq_spec (D := 2) (by decide) hist3
+    [(toHist {} hist3).take 2, (toHist {} hist3).drop 2] (by decide) (by decide)
+  refine ⟨sa, sb, ha, hb, fun k hk => ?_⟩
+  obtain ⟨fa, h1, _, h2⟩ := va k hk
+  obtain ⟨fb, h3, _, h4⟩ := vb k hk
+  exact ⟨fa, fb, h1, h3, h2, h4⟩
+
+end AranyaV.FactsBridge
+
